@@ -822,10 +822,10 @@ type mergePlan struct {
 }
 
 func mergePlanFor(which, tier string) mergePlan {
-	p := mergePlan{sizes: []int{2, 3, 4, 5, 1}, systematic: which == "C01" || which == "C02"}
+	p := mergePlan{sizes: []int{2, 3, 4, 5, 1}, systematic: true}
 	per := map[string]int{"C01": 300, "C02": 400, "C03": 500, "C04": 500, "C05": 500}[which]
 	if tier == "thorough" {
-		per *= 20
+		per *= 120
 	}
 	p.randomPer = per
 	return p
@@ -853,7 +853,13 @@ func runMergeChild(which string, c *ev.ChildEnv, res *ev.Result) {
 			if s.N != n {
 				continue
 			}
-			if which == "C02" && s.Pattern == "plain" {
+			if which != "C01" && (s.Pattern == "plain" || s.Pattern == "collision-after-ignored-drop") {
+				continue // the must-fail half belongs to C01
+			}
+			if which == "C03" && s.Path != "create-adjust" {
+				continue
+			}
+			if which == "C04" && s.Path != "create-adjust" && s.Path != "update-own" {
 				continue
 			}
 			cases = append(cases, g.genSystematic(id(len(cases)), s))
@@ -884,6 +890,11 @@ func runMergeChild(which string, c *ev.ChildEnv, res *ev.Result) {
 			o.Disjoint = true
 			o.OpsMax = 5
 			o.Boundary = true
+			if o.Kind == "update" && x < 0.5 {
+				// conflicting ignore-failure updates get dropped whole: later plugins must not see any part of them
+				o.Disjoint = false
+				o.Ignore = 0.7
+			}
 		case "C05":
 			o.Kind = []string{"create", "update", "update", "stop"}[g.rng.IntN(4)]
 			o.Disjoint = x < 0.6
@@ -925,12 +936,30 @@ func runMergeChild(which string, c *ev.ChildEnv, res *ev.Result) {
 	res.Count(fmt.Sprintf("rig_plugins_%d", n), 1)
 }
 
+// isBoundaryValue: the value does not contain a generator-made unique number (1001 <= n < 10^9), so it
+// cannot identify its writer.
 func isBoundaryValue(v string) bool {
-	switch v {
-	case "0", "1", "-1", "9223372036854775807", "-9223372036854775808", "4294967296":
-		return true
+	run := ""
+	uniq := false
+	check := func() {
+		if len(run) >= 4 && len(run) <= 9 {
+			n := 0
+			fmt.Sscan(run, &n)
+			if n > 1000 {
+				uniq = true
+			}
+		}
+		run = ""
 	}
-	return false
+	for i := 0; i < len(v); i++ {
+		if v[i] >= '0' && v[i] <= '9' {
+			run += string(v[i])
+		} else {
+			check()
+		}
+	}
+	check()
+	return !uniq
 }
 
 // containsToken reports whether val occurs in s delimited by non-alphanumerics.
